@@ -566,9 +566,23 @@ class _ExtendedTypeFetcher(Thread):
 
         self.request_queue = Queue()
         self._cf.add_port_callback(CRTPPort.PARAM, self._new_packet_cb)
+        # Stop listening if the link goes away before all answers have arrived
+        self._cf.disconnected.add_callback(self._disconnected)
         self._should_close = False
         self._req_param = -1
         self._count = -1
+
+    def _disconnected(self, link_uri):
+        """The link was closed or lost, this fetch is abandoned: nothing that
+        arrives in a later session may be taken as an answer to it"""
+        self._cf.remove_port_callback(CRTPPort.PARAM, self._new_packet_cb)
+        try:
+            self._cf.disconnected.remove_callback(self._disconnected)
+        except ValueError:
+            pass
+        self._done_callback = None
+        self._req_param = -1
+        self._close()
 
     def _new_packet_cb(self, pk):
         """Callback for newly arrived packets"""
